@@ -141,6 +141,83 @@ let null_stream oc =
     emit_c09 oc ~stream:"c09-null" ([ M.NIf ([ (var "x", [ text "T" ]) ], Some [ text "F" ]); M.NSet (bs "x", nul); M.NIf ([ (var "x", [ text "T" ]) ], Some [ text "F" ]) ]) ctx)
     [ []; [ ("x", G.vint 5) ]; [ ("x", M.VNull) ]; [ ("x", G.vstr "s") ] ]
 
+(* nested loops keep their own counters -- also seen through a variable that holds the enclosing loop's `loop`
+   (the only way to reach it from a nested loop). The evaluator model has immutable values and puts `set x = loop`
+   outside itself, so the expectation of this family is computed here, from the counter table of the property:
+   index = i+1, index0 = i, revindex = n-i, revindex0 = n-i-1, first = (i = 0), last = (i = n-1), length = n.
+   The variable is assigned in every iteration before it is read, so a reference and a copy read the same. *)
+let loopref_stream oc =
+  let fields = [ "index"; "index0"; "revindex"; "revindex0"; "length"; "first"; "last" ] in
+  let value f ~i ~n = match f with
+    | "index" -> string_of_int (i + 1) | "index0" -> string_of_int i | "revindex" -> string_of_int (n - i)
+    | "revindex0" -> string_of_int (n - i - 1) | "length" -> string_of_int n
+    | "first" -> if i = 0 then "y" else "n" | _ -> if i = n - 1 then "y" else "n" in
+  let show x f = if f = "first" || f = "last" then print (M.ECond (attr (var x) f, lit_str "y", lit_str "n")) else print (attr (var x) f) in
+  let seq n base = M.EArr (List.init n (fun j -> lit_int (base + j))) in
+  let emit_exp ns ctx (expected : string) ~seqlen =
+    let e = env_of ns in
+    match (try Some (G.case_input_fields e "t" ctx) with G.Unprintable _ -> None) with
+    | None -> ()
+    | Some fs ->
+      incr emitted;
+      let ex = Ob [ "out", JS (hex expected) ] in
+      emit oc (Ob ([ "stream", JS "c09-loopref" ] @ fs @ [ "exp", ex; "spec", ex; "trace", JL []; "depth", JI (depth_of ns); "seqlen", JI seqlen ])) in
+  let cat f k = String.concat "" (List.init k f) in
+  for n = 1 to 3 do for m = 0 to 4 do
+    List.iter (fun fo -> List.iter (fun fi ->
+      if (fo = fi || fo = "index" || fi = "index" || (n + m) mod 2 = 0) then begin
+        (* the enclosing loop kept in a variable, read while the nested loop runs and after it *)
+        let ns = [ M.NFor (None, bs "a", seq n 10,
+                     [ M.NSet (bs "outer", var "loop");
+                       M.NFor (None, bs "b", seq m 20, [ show "outer" fo; text "."; show "loop" fi; text " " ], Some [ text "none " ]);
+                       text "<"; show "outer" fo; text "="; show "loop" fo; text ">" ], None) ] in
+        let exp = cat (fun i ->
+          (if m = 0 then "none " else cat (fun j -> value fo ~i ~n ^ "." ^ value fi ~i:j ~n:m ^ " ") m)
+          ^ "<" ^ value fo ~i ~n ^ "=" ^ value fo ~i ~n ^ ">") n in
+        emit_exp ns [] exp ~seqlen:(max n m)
+      end) fields) fields
+  done done;
+  (* assigned after a first nested loop, read in a second one; three levels *)
+  for n = 1 to 3 do for m = 1 to 3 do
+    let ns = [ M.NFor (None, bs "a", seq n 10,
+                 [ M.NFor (None, bs "b", seq m 20, [ print (attr (var "loop") "index") ], None);
+                   M.NSet (bs "outer", var "loop");
+                   M.NFor (None, bs "b", seq (m + 1) 20, [ text ":"; print (attr (var "outer") "index"); print (attr (var "outer") "length"); print (attr (var "loop") "revindex") ], None);
+                   text ";" ], None) ] in
+    let exp = cat (fun i -> cat (fun j -> string_of_int (j + 1)) m
+                            ^ cat (fun j -> ":" ^ string_of_int (i + 1) ^ string_of_int n ^ string_of_int (m + 1 - j)) (m + 1) ^ ";") n in
+    emit_exp ns [] exp ~seqlen:(max n (m + 1));
+    for k = 1 to 2 do
+      let ns = [ M.NFor (None, bs "a", seq n 10,
+                   [ M.NSet (bs "o1", var "loop");
+                     M.NFor (None, bs "b", seq m 20,
+                       [ M.NSet (bs "o2", var "loop");
+                         M.NFor (None, bs "c", seq k 30,
+                           [ print (attr (var "o1") "index"); print (attr (var "o2") "index"); print (attr (var "loop") "index");
+                             text "/"; print (attr (var "o1") "revindex"); print (attr (var "o2") "revindex"); print (attr (var "loop") "revindex"); text " " ], None);
+                         text "["; print (attr (var "o1") "index0"); print (attr (var "loop") "index0"); text "]" ], None) ], None) ] in
+      let exp = cat (fun i -> cat (fun j ->
+        cat (fun l -> Printf.sprintf "%d%d%d/%d%d%d " (i + 1) (j + 1) (l + 1) (n - i) (m - j) (k - l)) k
+        ^ Printf.sprintf "[%d%d]" i j) m) n in
+      emit_exp ns [] exp ~seqlen:(max n (max m k))
+    done
+  done done
+
+(* exactly one branch, the first whose condition is truthy -- also when that branch is empty *)
+let empty_branch_stream oc =
+  let shapes = [
+    (fun () -> [ M.NIf ([ (var "a", [ text "A" ]); (var "b", []) ], Some [ text "E" ]) ]);
+    (fun () -> [ M.NIf ([ (var "a", [ text "A" ]); (var "b", []); (var "c", [ text "C" ]) ], None) ]);
+    (fun () -> [ M.NIf ([ (var "a", []); (var "b", [ text "B" ]) ], Some []) ]);
+    (fun () -> [ M.NIf ([ (var "a", [ text "A" ]); (var "b", []); (var "c", []) ], Some [ M.NSet (bs "x", lit_int 1); text "E" ]); text "|"; print (var "x") ]);
+    (fun () -> [ M.NIf ([ (var "a", []); (var "b", []); (var "c", [ M.NSet (bs "x", lit_int 2) ]) ], Some [ text "E" ]); text "|"; print (var "x") ]);
+    (fun () -> [ M.NFor (None, bs "i", M.EArr [ lit_int 1; lit_int 2 ],
+                   [ M.NIf ([ (M.EBin (M.BEq, var "i", lit_int 1), []); (var "b", [ text "B" ]) ], Some [ text "E" ]) ], None) ]) ] in
+  List.iter (fun mk ->
+    List.iter (fun a -> List.iter (fun b -> List.iter (fun c ->
+      emit_c09 oc ~stream:"c09-empty-branch" (mk ()) [ ("a", M.VBool a); ("b", M.VBool b); ("c", M.VBool c); ("x", G.vint 0) ])
+      [ true; false ]) [ true; false ]) [ true; false ]) shapes
+
 let range_stream oc ~wide =
   let lo = if wide then -7 else -4 and hi = if wide then 7 else 4 in
   for a = lo to hi do
@@ -274,8 +351,10 @@ and gen_stmt r (st : pst) ~depth : M.node list * pst =
     ([ M.NSet (bs x, e) ], { st with sets = if List.mem x st.sets then st.sets else x :: st.sets })
   | 5 | 6 | 7 | 8 ->
     let nb = 1 + rint r 3 in
-    let branches = List.init nb (fun _ -> (gen_cond r st, fst (gen_prog r st ~depth:(depth - 1) ~len:2))) in
-    let els = if rbool r then Some (fst (gen_prog r st ~depth:(depth - 1) ~len:2)) else None in
+    (* a branch may be empty: it is still the branch selected when its condition is the first truthy one *)
+    let body () = if rint r 6 = 0 then [] else fst (gen_prog r st ~depth:(depth - 1) ~len:2) in
+    let branches = List.init nb (fun _ -> let c = gen_cond r st in (c, body ())) in
+    let els = if rbool r then Some (body ()) else None in
     (* assignments made in a branch are not known to be made: the state after the chain is the state before *)
     ([ M.NIf (branches, els) ], st)
   | _ ->
@@ -447,5 +526,7 @@ let run ~seed ~tier oc =
     lazy_stream oc;
     seq_stream oc;
     null_stream oc;
+    loopref_stream oc;
+    empty_branch_stream oc;
     range_stream oc ~wide:thorough;
     prog_stream r oc (if thorough then 60000 else 2500)
